@@ -1,0 +1,20 @@
+//go:build !verif
+
+/*
+ * SPDX-License-Identifier: Apache-2.0
+ */
+
+package y
+
+// VerifEnabled reports whether verification hooks are compiled in (build tag "verif").
+// With the tag off every hook call site is dead code.
+const VerifEnabled = false
+
+// VerifEvent is a no-op without the verif build tag.
+func VerifEvent(point string, kv ...interface{}) {}
+
+// VerifGate is a no-op without the verif build tag.
+func VerifGate(point string, kv ...interface{}) {}
+
+// VerifNowUnix returns false without the verif build tag (no clock override).
+func VerifNowUnix() (uint64, bool) { return 0, false }
